@@ -311,38 +311,38 @@ pub fn compound<S: Src>(s: &mut S) {
 }
 
 common::register! {
-    q_sr_1 = sr::<_, 1> => 2,
-    q_sr_31 = sr::<_, 31> => 32,
-    q_sr_32 = sr::<_, 32> => 33,
-    q_rr_2 = rr::<_, 2> => 3,
-    q_rr_31 = rr::<_, 31> => 32,
-    q_rr_32 = rr::<_, 32> => 33,
-    q_bye_0 = bye::<_, 0> => 2,
-    q_bye_31 = bye::<_, 31> => 32,
-    q_bye_32 = bye::<_, 32> => 33,
-    q_app = app => 2,
-    q_unknown = unknown => 2,
-    kf_c16_app_total_size = kf_app_total_size => 2,
-    kf_c16_unknown_total_size = kf_unknown_total_size => 2,
-    q_sdes_item = sdes_item => 2,
-    q_sdes_1x2 = sdes::<_, 1, 2> => 3,
-    q_sdes_2x1 = sdes::<_, 2, 1> => 3,
-    t_sdes_31x0 = sdes::<_, 31, 0> => 32,
-    t_sdes_32x0 = sdes::<_, 32, 0> => 33,
+    q_sr_1 = sr::<_, 1> => 320,
+    q_sr_31 = sr::<_, 31> => 320,
+    q_sr_32 = sr::<_, 32> => 320,
+    q_rr_2 = rr::<_, 2> => 320,
+    q_rr_31 = rr::<_, 31> => 320,
+    q_rr_32 = rr::<_, 32> => 320,
+    q_bye_0 = bye::<_, 0> => 320,
+    q_bye_31 = bye::<_, 31> => 320,
+    q_bye_32 = bye::<_, 32> => 320,
+    q_app = app => 320,
+    q_unknown = unknown => 320,
+    kf_c16_app_total_size = kf_app_total_size => 320,
+    kf_c16_unknown_total_size = kf_unknown_total_size => 320,
+    q_sdes_item = sdes_item => 320,
+    q_sdes_1x2 = sdes::<_, 1, 2> => 320,
+    q_sdes_2x1 = sdes::<_, 2, 1> => 320,
+    t_sdes_31x0 = sdes::<_, 31, 0> => 320,
+    t_sdes_32x0 = sdes::<_, 32, 0> => 320,
     q_fb_pli = fb::<_, 0> => 2,
     q_fb_sli = fb::<_, 1> => 3,
     q_fb_rpsi = fb::<_, 2> => 2,
     q_fb_nack = fb::<_, 3> => 2,
     q_compound = compound => 4,
-    t_sr_0 = sr::<_, 0> => 2,
-    t_sr_2 = sr::<_, 2> => 3,
-    t_rr_0 = rr::<_, 0> => 2,
-    t_rr_1 = rr::<_, 1> => 2,
-    t_bye_1 = bye::<_, 1> => 2,
-    t_bye_2 = bye::<_, 2> => 3,
-    t_sdes_0 = sdes::<_, 0, 0> => 2,
-    t_sdes_1x3 = sdes::<_, 1, 3> => 4,
-    t_sdes_2x2 = sdes::<_, 2, 2> => 3,
+    t_sr_0 = sr::<_, 0> => 320,
+    t_sr_2 = sr::<_, 2> => 320,
+    t_rr_0 = rr::<_, 0> => 320,
+    t_rr_1 = rr::<_, 1> => 320,
+    t_bye_1 = bye::<_, 1> => 320,
+    t_bye_2 = bye::<_, 2> => 320,
+    t_sdes_0 = sdes::<_, 0, 0> => 320,
+    t_sdes_1x3 = sdes::<_, 1, 3> => 320,
+    t_sdes_2x2 = sdes::<_, 2, 2> => 320,
 }
 
 common::register_hashmap! {
